@@ -4,6 +4,7 @@ from __future__ import annotations
 from ..evalr import Obj
 from ..spec import CONFIG, GROUP, SCORES, returns
 from ..terms import App, Const, Sym
+from ..evalr import Obj  # noqa: F811
 
 LEVEL = "other"
 
@@ -29,19 +30,21 @@ SCORES_CONFIGS = [(m, s, sm) for m in ("replacement", "single_pass", "dynamic") 
 GROUP_CONFIGS = [(m, s, False) for m in ("replacement", "single_pass", "dynamic") for s in (None, "by_label", "by_group")]
 
 
-def sample_outcomes(ctx, chk):
+def sample_outcomes(ctx, chk, flags=("pos", "pos"), classes=(SCORES, GROUP)):
     """All paths of bootstrap_sample for both classes over the built-in configuration matrix."""
-    key = id(ctx)
+    key = (id(ctx), flags, classes, ctx.ev.merge_ifs, tuple(a.key for a in ctx.ev.assume))
     if key in _cache:
         return _cache[key]
     out = []
     for cls, configs in ((SCORES, SCORES_CONFIGS), (GROUP, GROUP_CONFIGS)):
+        if cls not in classes:
+            continue
         for m, s, sm in configs:
             ratio = Sym("ratio", ("float", "notnone")) if m == "proportion" else None
             label = "%s.bootstrap_sample[%s,%s%s]" % (cls.split(".")[-1], m, s, ",smoothing" if sm else "")
 
             def thunk():
-                obj = ctx.scores_obj("pos", "pos", cls, ep=Sym("Ep", ("int", "notnone")) if cls == SCORES else Const(0),
+                obj = ctx.scores_obj(flags[0], flags[1], cls, ep=Sym("Ep", ("int", "notnone")) if cls == SCORES else Const(0),
                                      en=Sym("En", ("int", "notnone")) if cls == SCORES else Const(0))
                 cfg = make_config(ctx, m, s, sm, ratio)
                 return ctx.ev.call(ctx.method(obj, "bootstrap_sample"), [], {"config": cfg})
@@ -55,5 +58,340 @@ def sample_outcomes(ctx, chk):
     return out
 
 
+
+
+# =========================================================================== rules
+
+from ..spec import POS, NEG, EP, EN, raises, unmodelled_text, pc_text  # noqa: E402
+from ..terms import (App as _A, Num, Tup, same, show, sub, add, mul, div, to_poly, mk_num, Poly, cmp0, negate, atoms_of, subst, is_const, const_of,  # noqa: E402
+                     compare, disj)
+from ..mirror import lint  # noqa: E402
+from ..typestate import strip_views  # noqa: E402
+
+HP, HN = _A("len", (POS,)), _A("len", (NEG,))
+ALLN = add(add(HP, HN), add(EP, EN))
+SI = SCORES + "._sample_indices"
+BS = SCORES + ".bootstrap_sample"
+NONNEG_SYMS = {EP.key, EN.key}
+
+
+LP1, LN1 = Sym("len_pos_minus_1", ("nonneg",)), Sym("len_neg_minus_1", ("nonneg",))
+SHIFT = {HP: None, HN: None}
+
+
+def shift(v):
+    """Use the standing facts len(pos) >= 1, len(neg) >= 1: len(x) = 1 + (non-negative remainder)."""
+    return subst(v, {HP: add(Const(1), LP1), HN: add(Const(1), LN1)})
+
+
+def _atom_nonneg(a, depth):
+    if isinstance(a, _A) and a.fn in ("len", "size", "trunc", "floor", "count_lt", "count_le", "sum", "max") and a.fn != "max":
+        return True
+    if isinstance(a, _A) and a.fn == "max":
+        return any(nonneg_term(x, depth + 1) for x in a.args)
+    if isinstance(a, _A) and a.fn == "ite":
+        return nonneg_term(a.args[1], depth + 1) and nonneg_term(a.args[2], depth + 1)
+    if isinstance(a, _A) and a.fn == "inv":
+        return nonneg_term(a.args[0], depth + 1)
+    if isinstance(a, Sym):
+        return a.key in NONNEG_SYMS or "nonneg" in a.tags or "positive" in a.tags
+    return False
+
+
+def nonneg_term(v, depth=0):
+    """v >= 0 for all draws: binomial(n, .) in [0, n], poisson >= 0, lengths and easy counts >= 0."""
+    if depth > 6:
+        return False
+    p = to_poly(shift(v))
+    if p is None:
+        return False
+    draws = [a for a in p.atoms() if isinstance(a, _A) and a.fn.startswith("rng:")]
+    units = []
+    for a in draws:
+        if a.fn == "rng:binomial":
+            n = a.kwd("n") if a.kwd("n") is not None else (a.args[0] if len(a.args) > 1 else None)
+            if n is None or not nonneg_term(n, depth + 1):
+                return False
+            units.append((a, n))
+        elif a.fn in ("rng:poisson", "rng:randint"):
+            units.append((a, None))
+        else:
+            return False
+    import itertools
+    for combo in itertools.product((0, 1), repeat=len(units)):
+        mp = {}
+        for (a, n), bit in zip(units, combo):
+            if n is None:
+                mp[a] = Poly.const(0) if bit == 0 else Poly.atom(Sym("bigdraw", ("nonneg",)))
+            else:
+                mp[a] = Poly.const(0) if bit == 0 else to_poly(shift(n))
+        q = p.subst(mp)
+        if any(isinstance(a, _A) and a.fn.startswith("rng:") for a in q.atoms()):
+            if not nonneg_term(mk_num(q), depth + 1):
+                return False
+            continue
+        for m, c in q.t.items():
+            if c < 0:
+                return False
+            for a, e in m:
+                if e % 2 and not _atom_nonneg(a, depth):
+                    return False
+    return True
+
+
+def known_nonzero(term, pc, facts):
+    """Some path condition (after discharging conjuncts known true) says term != 0."""
+    z = cmp0("eq", to_poly(term))
+    for c, taken in pc:
+        if c == z and not taken:
+            return True
+        if c == negate(z) and taken:
+            return True
+        if isinstance(c, _A) and c.fn == "and" and not taken and z in c.args:
+            others = [a for a in c.args if a != z]
+            if all(fact_true(a, pc, facts) for a in others):
+                return True
+    return False
+
+
+def fact_true(cond, pc, facts):
+    if any(cond == f for f in facts):
+        return True
+    for c, taken in pc:
+        if c == cond and taken:
+            return True
+    # lt0(-X) with X >= 1 established
+    if isinstance(cond, _A) and cond.fn == "lt0":
+        x = mk_num(-to_poly(cond.args[0]))
+        return ge1(x, pc, facts, _depth=1)
+    return False
+
+
+def ge1(term, pc, facts, _depth=0):
+    if is_const(term):
+        return const_of(term) >= 1
+    if isinstance(term, _A) and term.fn == "max" and any(is_const(a) and const_of(a) >= 1 for a in term.args):
+        return True
+    if any(f == cmp0("lt", -to_poly(term)) for f in facts):
+        return True
+    if isinstance(term, _A) and term.fn == "ite":
+        c = term.args[0]
+        return ge1(term.args[1], list(pc) + [(c, True)], facts, _depth) and ge1(term.args[2], list(pc) + [(c, False)], facts, _depth)
+    if _depth < 4:
+        p = to_poly(shift(term))
+        if p is not None and p.const_value() >= 1 and nonneg_term(mk_num(p - Poly.const(1))):
+            return True
+        if nonneg_term(term) and known_nonzero(term, pc, facts):
+            return True
+    return False
+
+
+def delivered_count(arr):
+    """('choice', K) | ('repeat', counts) | None for a sampled class array."""
+    v = strip_views(arr)
+    while isinstance(v, _A) and v.fn in ("sort", "fresh"):
+        v = strip_views(v.args[0])
+    if isinstance(v, Num):
+        g = [a for a in v.poly.atoms() if isinstance(a, _A) and a.fn in ("getitem", "rng:choice")]
+        if len(g) == 1:
+            v = g[0]
+    if isinstance(v, _A) and v.fn == "rng:choice":
+        return ("choice", v.kwd("size"), v.args[0], v.kwd("replace"))
+    if isinstance(v, _A) and v.fn == "getitem":
+        base, idx = strip_views(v.args[0]), strip_views(v.args[1])
+        while isinstance(idx, _A) and idx.fn in ("sort", "fresh"):
+            idx = strip_views(idx.args[0])
+        if isinstance(idx, _A) and idx.fn == "rng:choice":
+            return ("choice", idx.kwd("size"), base, idx.kwd("replace"))
+        if isinstance(idx, _A) and idx.fn == "repeat":
+            return ("repeat", idx.args[1], base, None)
+    return None
+
+
+def sum_ge1(counts, pc, facts):
+    """sum(counts) >= 1 on this path."""
+    c = counts
+    if isinstance(c, _A) and c.fn == "store" and is_const(c.args[2]) and const_of(c.args[2]) >= 1:
+        return True
+    if isinstance(c, _A) and c.fn.startswith("rng:"):
+        s = _A("sum", (c,))
+        z = cmp0("eq", to_poly(s))
+        for cond, taken in pc:
+            if cond == z and not taken:
+                return True
+            if isinstance(cond, _A) and cond.fn == "and" and not taken and z in cond.args:
+                if all(fact_true(a, pc, facts) for a in cond.args if a != z):
+                    return True
+    return False
+
+
 def run(ctx, chk, tier):
-    raise NotImplementedError
+    chk.rule_text = ("obligations per return path of bootstrap_sample over the built-in configuration matrix (flags, same-class source, delivered size >= 1), per path of "
+                     "_sample_indices (count algebra), mirror pairs of the dual functions, dynamic-method resolution; non-trivial = term mentions source arrays or draws")
+    chk.explanation = ("bootstrap_sample and _sample_indices are explored path by path for every built-in (method, stratification, smoothing) combination. Structural clauses are read "
+                       "off the derived terms: flags forwarded, each class drawn from the source's same class, requested class/stratum sizes sum to the source total on every path "
+                       "(by_label: the four source strata), proportion draws max(int(ratio*size),1) without replacement, delivered sizes have lower bound 1 (interval facts: "
+                       "binomial(n,.) in [0,n], counts >= 0, refined by the at-least-one guards), pos/neg duality of the sampling code, and the dynamic switch. "
+                       "Unbiasedness / reachability in distribution are not decided.")
+    chk.trusted |= {"numpy.random.binomial(n,p) in [0,n]", "numpy.random.choice(a, size=k) has length k", "numpy.repeat(arange(H), counts) has length sum(counts)", "C01 R01.4 for sortedness"}
+    chk.assumptions = ["both source classes non-empty (len(pos) > 0, len(neg) > 0)", "distributional clauses (unbiasedness, reachability) are outside static reach"]
+    ev = ctx.ev
+    facts = [compare(">", HP, Const(0)), compare(">", HN, Const(0))]
+    # ---------------- R11.1 / R11.5 on bootstrap_sample outcomes
+    ev.assume = list(facts)
+    try:
+        outs = sample_outcomes(ctx, chk, flags=("neg", "pos"), classes=(SCORES,))
+    finally:
+        ev.assume = []
+        nret = 0
+    for label, o in outs:
+        cls, m, s, sm = o.config
+        if cls != SCORES:
+            continue
+        if o.kind == "raise":
+            expected = (m == "single_pass" and sm) or (m == "dynamic" and False)
+            if not expected:
+                if exc_ok(o, m, sm):
+                    continue
+                chk.violation("R11.1", BS, "%s:raises" % label, "%s when %s" % (show(o.value, 80), pc_text(o)[:200]), "a sample for every supported configuration", ctx.where(BS))
+            continue
+        nret += 1
+        res = o.value
+        inst = label
+        if not isinstance(res, Obj):
+            chk.unknown("R11.1", "%s returns %s" % (label, show(res, 60)))
+            continue
+        flags_ok = res.attrs.get("score_class") == ctx.label("neg") and res.attrs.get("equal_class") == ctx.label("pos")
+        if flags_ok:
+            chk.hold("R11.1", inst + ":flags", "sample keeps score_class and equal_class of the source")
+        else:
+            chk.violation("R11.1", BS, inst + ":flags", "score_class=%s equal_class=%s" % (show(res.attrs.get("score_class")), show(res.attrs.get("equal_class"))),
+                          "the source's flags (neg, pos)", ctx.where(BS))
+        for nm, src in (("pos", POS), ("neg", NEG)):
+            d = delivered_count(res.attrs.get(nm))
+            if d is None:
+                chk.unknown("R11.1", "%s: sampled %s array not understood: %s" % (label, nm, show(res.attrs.get(nm), 160)))
+                continue
+            kind, cnt, base, repl = d
+            base_ok = base == src or (kind == "choice" and is_len_of(base, src))
+            if base_ok:
+                chk.hold("R11.1", "%s:%s-source" % (inst, nm), "%s drawn from the source's %s scores" % (nm, nm))
+            else:
+                chk.violation("R11.1", BS, "%s:%s-source" % (inst, nm), show(base, 100), "self.%s" % nm, ctx.where(BS))
+            ok = ge1(cnt, o.pc, facts) if kind == "choice" and cnt is not None else sum_ge1(cnt, o.pc, facts)
+            if ok:
+                chk.hold("R11.5", "%s:%s>=1" % (inst, nm), "delivered %s count %s has lower bound 1" % (nm, show(cnt, 80)))
+            else:
+                chk.violation("R11.5", BS, "%s:%s-at-least-one" % (label.split("[")[1].rstrip("]"), nm),
+                              "delivered count %s (%s) has lower bound 0 on path [%s]" % (show(cnt, 160), kind, pc_text(o)[-200:]),
+                              "at least one scored %s whenever the source has one" % nm, ctx.where(SI))
+            if m == "proportion":
+                want = _A("max", (Const(1), _A("trunc", (mul(Sym("ratio", ("float", "notnone")), _A("size", (src,))),))))
+                if cnt is not None and same(cnt, want) and repl == Const(False):
+                    chk.hold("R11.3", "proportion:%s" % nm, "draws max(int(ratio*size), 1) without replacement")
+                else:
+                    chk.violation("R11.3", BS, "proportion:%s" % nm, "size=%s replace=%s" % (show(cnt, 120) if cnt is not None else "?", show(repl) if repl is not None else "?"),
+                                  "size=max(int(ratio*size),1), replace=False", ctx.where(BS))
+        if m == "proportion":
+            rt = Sym("ratio", ("float", "notnone"))
+            for nm, e in (("nb_easy_pos", EP), ("nb_easy_neg", EN)):
+                g = res.attrs.get(nm)
+                if g is not None and same(g, _A("trunc", (mul(rt, e),))):
+                    chk.hold("R11.3", "proportion:" + nm, "int(ratio * easy count)")
+                else:
+                    chk.violation("R11.3", BS, "proportion:" + nm, show(g, 100) if g is not None else "unset", "int(ratio*%s)" % show(e), ctx.where(BS))
+    if nret < 20:
+        chk.unknown("R11.1", "only %d return paths of Scores.bootstrap_sample analysed" % nret)
+    # ---------------- R11.2 (= R01.4) is_sorted only with ascending arrays
+    from . import c01
+    c01.construction_sites(ctx, chk)
+    # ---------------- R11.3 count algebra of _sample_indices
+    count_algebra(ctx, chk)
+    # ---------------- R11.4 duality
+    total_pairs = 0
+    for q in (SI, BS, GROUP + ".bootstrap_sample", SCORES + "._sampling_method", GROUP + "._sampling_method"):
+        f = ctx.db.function(q)
+        n, finds = lint(f.node)
+        total_pairs += n
+        for fd in finds:
+            chk.violation("R11.4", q, "partial-mirror:%s" % fd["statement"][:80], "%s   (partner line %d: %s)" % (fd["statement"], fd["partner_line"], fd["partner"]),
+                          fd["detail"], "%s:%d" % (f.module.relpath, fd["line"]))
+        if not finds:
+            chk.hold("R11.4", q.split(".")[-2] + "." + q.split(".")[-1], "%d pos/neg statement pairs are exact mirror images" % n, nontrivial=n > 0)
+    if total_pairs < 30:
+        chk.unknown("R11.4", "only %d mirrored statement pairs found (floor 30)" % total_pairs)
+    # ---------------- R11.6 dynamic method resolution
+    for cls in (SCORES, GROUP):
+        for smoothing, strat in ((False, None), (True, None), (False, "by_group")):
+            cfg_kw = dict(sampling_method="dynamic", stratified=strat, smoothing=smoothing)
+            outs = ctx.explore(lambda: ev.call(ctx.method(ctx.scores_obj("pos", "pos", cls), "_sampling_method"), [make_config(ctx, **cfg_kw)], {}), chk)
+            small = disj([compare("<", HP, Const(100)), compare("<", HN, Const(100))])
+            q = cls + "._sampling_method"
+            inst = "%s:smoothing=%s,strat=%s" % (cls.split(".")[-1], smoothing, strat)
+            vals = {}
+            for o in returns(outs):
+                vals.setdefault(show(o.value), []).append(o)
+            force_repl = (smoothing and cls == SCORES) or (strat == "by_group" and cls == GROUP)
+            if force_repl:
+                if set(vals) == {"'replacement'"}:
+                    chk.hold("R11.6", inst, "dynamic -> replacement")
+                else:
+                    chk.violation("R11.6", q, inst, sorted(vals), "'replacement' (smoothing / by_group forces replacement sampling)", ctx.where(q))
+            else:
+                rp = vals.get("'replacement'", [])
+                sp = vals.get("'single_pass'", [])
+                ok = len(rp) == 1 and len(sp) == 1 and any(c == small and t for c, t in rp[0].pc) and any(c == small and not t for c, t in sp[0].pc)
+                if ok:
+                    chk.hold("R11.6", inst, "replacement iff len(pos) < 100 or len(neg) < 100, else single pass")
+                else:
+                    chk.violation("R11.6", q, inst, {k: [pc_text(o)[:120] for o in v] for k, v in vals.items()}, "replacement iff %s" % show(small, 120), ctx.where(q))
+    chk.floor("R11.6", 6, "2 classes x 3 configurations")
+
+
+def count_algebra(ctx, chk):
+    ev = ctx.ev
+    facts = [compare(">", HP, Const(0)), compare(">", HN, Const(0))]
+    ev.merge_ifs = False
+    ev.assume = list(facts)
+    try:
+        for by_label in (False, True):
+            outs = ctx.explore(lambda: ev.call(ctx.method(ctx.scores_obj("pos", "pos"), "_sample_indices"), [], {"by_label": Const(by_label), "single_pass": Const(False)}), chk)
+            n = 0
+            for o in outs:
+                if o.kind != "return" or not (isinstance(o.value, Tup) and len(o.value.items) == 4):
+                    continue
+                pi, ni, ep_, en_ = o.value.items
+                kp = pi.kwd("size") if isinstance(pi, _A) and pi.fn == "rng:choice" else None
+                kn = ni.kwd("size") if isinstance(ni, _A) and ni.fn == "rng:choice" else None
+                if kp is None or kn is None:
+                    chk.unknown("R11.3", "_sample_indices(by_label=%s): index draws not recognised" % by_label)
+                    continue
+                n += 1
+                inst = "by_label=%s:path[%s]" % (by_label, "".join("T" if t else "F" for _c, t in o.pc))
+                if by_label:
+                    ok = same(kp, HP) and same(kn, HN) and same(ep_, EP) and same(en_, EN)
+                    if ok:
+                        chk.hold("R11.3", inst, "stratified: (hard_pos, hard_neg, easy_pos, easy_neg) = the source's four stratum sizes")
+                    else:
+                        chk.violation("R11.3", SI, "by_label:strata", "(%s, %s, %s, %s)" % tuple(show(x, 60) for x in (kp, kn, ep_, en_)), "(len(pos), len(neg), Ep, En)", ctx.where(SI))
+                else:
+                    tot = add(add(kp, ep_), add(kn, en_))
+                    if same(tot, ALLN):
+                        chk.hold("R11.3", inst, "hard_pos + easy_pos + hard_neg + easy_neg = nb_all_samples")
+                    else:
+                        chk.violation("R11.3", SI, "total:path[%s]" % pc_text(o)[:160], show(tot, 260), show(ALLN, 100) + " (replacement sampling preserves the total count)", ctx.where(SI))
+            if n == 0:
+                chk.unknown("R11.3", "_sample_indices(by_label=%s): no return path analysed" % by_label)
+    finally:
+        ev.merge_ifs = True
+        ev.assume = []
+
+
+def is_len_of(base, src):
+    return same(base, _A("len", (src,)))
+
+
+def exc_ok(o, m, sm):
+    """Documented refusals: smoothing with single pass."""
+    txt = show(o.value, 200)
+    return "Smoothing is not supported" in txt
